@@ -643,6 +643,25 @@ def _nested_static_tree_message(outer_path: str, inner_path: str) -> str:
     )
 
 
+def _volatile_input_message(path: str) -> str:
+    """Format the error for a volatile output that is also used as an input of a step.
+
+    The volatile declaration and the input can arrive in either order,
+    and whichever comes second raises, with this same text.
+
+    Parameters
+    ----------
+    path
+        The (normalized) path that is both volatile and an input.
+
+    Returns
+    -------
+    message
+        The error message.
+    """
+    return f"A volatile output cannot be used as an input: {path}"
+
+
 def _claim_collision_message(path: str, claim: Claim, decl: Decl) -> str:
     """Format the error for a declaration of `path` that collides with an existing claim.
 
@@ -1616,7 +1635,7 @@ class Workflow(Trellis):
             # hence unavailable, until its creator returns or it is deleted.
             state = file.get_state()
             if state == FileState.VOLATILE:
-                raise GraphError(f"Input is volatile: {path}")
+                raise GraphError(_volatile_input_message(path))
             self._raise_if_forbidden_target(path, state)
         new_relation = (
             self.db.execute(
@@ -1731,7 +1750,7 @@ class Workflow(Trellis):
         if file_state == FileState.VOLATILE:
             # Do not allow volatile files to have sinks.
             if any(file.sinks()):
-                raise GraphError(f"An input to an existing step cannot be volatile: {path}")
+                raise GraphError(_volatile_input_message(path))
         else:
             # Watch parent directories of non-volatile files.
             self.watch_dir(Path(path).parent)
